@@ -32,7 +32,7 @@ func init() {
 			"Engine 'order' (instrumented copy): every range over a map in encoding/mvt and geojson is driven by the choice stream; the value is marshalled under two drawn iteration-order policies " +
 			"(ascending vs descending, rotated, shuffled, per-loop) and the outputs must be byte-identical, plain and gzipped; then the round trip is compared with a reference model. " +
 			"Engine 'roundtrip' (unmodified package): the same round-trip model plus 16 repetitions of Marshal under the real runtime's map order (uncontrolled, labelled). " +
-			"Distinct = distinct event-log digest; non-trivial = the layers hold at least one feature with a geometry.",
+			"The model is a deep snapshot taken before Marshal sees the layers (open rings, rings carved from one array, one-vertex lines, objects shared between features and layers, zero/default/extreme layer headers, strings that are not UTF-8); results must survive what callers do next (marshal something else, overwrite the input buffer, edit some of the decoded features in place). Distinct = distinct event-log digest; non-trivial = the layers hold at least one feature with a geometry.",
 		StateDef: "distinct (geometry-kind mix, property-type mix, order-policy pair) tuples",
 		Engines: []props.Engine{
 			{Name: "order", Variant: "instr", Run: RunOrder, QuickRuns: 40000, Share: 0.6, MinThorough: 300000, RunTimeout: 60 * time.Second},
